@@ -73,6 +73,8 @@ import (
 	"sort"
 	"strings"
 	"time"
+
+	"github.com/influxdata/influxdb/pkg/verifhook"
 )
 
 const (
@@ -748,8 +750,18 @@ func (t *tsmWriter) sync() error {
 	}
 
 	if f, ok := t.wrapped.(sync); ok {
+		if verifhook.Enabled {
+			if err := verifhook.Fault("tsm.fsync"); err != nil {
+				return err
+			}
+		}
 		if err := f.Sync(); err != nil {
 			return err
+		}
+		if verifhook.Enabled {
+			if nf, ok := t.wrapped.(interface{ Name() string }); ok {
+				verifhook.Point("file.synced", nf.Name())
+			}
 		}
 	}
 	return nil
